@@ -168,10 +168,15 @@ pub fn call_generator(src: &str, opts: &Opts, detail: u64, budget: u64) -> CallO
             };
             let r1 = catch_unwind(AssertUnwindSafe(|| e.emit_to_string(src)));
             let r2 = catch_unwind(AssertUnwindSafe(|| e.emit_to_string_with_path(src, "shader.wgsl")));
+            let r2abs = catch_unwind(AssertUnwindSafe(|| {
+                let a = e.emit_to_string_with_path(src, "/abs/does/not/exist/shader.wgsl");
+                let b = e.emit_to_string_with_path(src, std::path::Path::new("/"));
+                a.len() + b.len()
+            }));
             renders = json!({
                 "to_string": match &r1 { Ok(s) => json!({"ok": true, "len": s.len(), "text": if s.len() < 200 { s.as_str() } else { "" }}), Err(_) => json!({"ok": false}) },
                 "to_string_with_path": match &r2 { Ok(s) => json!({"ok": true, "len": s.len(), "has_path": s.contains("shader.wgsl"), "text": if s.len() < 200 { s.as_str() } else { "" }}), Err(_) => json!({"ok": false}) },
-                "to_stderr": json!({"ok": r3.is_ok()}),
+                "to_stderr": json!({"ok": r3.is_ok() && r2abs.is_ok()}),
             });
             let mut m = json!({"kind":"err","err":name,"display":disp});
             if let (Some(mm), Some(ex)) = (m.as_object_mut(), extra.as_object()) {
@@ -192,6 +197,25 @@ pub fn call_generator(src: &str, opts: &Opts, detail: u64, budget: u64) -> CallO
         micros,
         renders,
     }
+}
+
+static HOOK_HITS: std::sync::atomic::AtomicUsize = std::sync::atomic::AtomicUsize::new(0);
+
+/// the process-wide panic hook belongs to the application: install a counting one, and later see whether it is still in place
+fn install_counting_hook() {
+    std::panic::set_hook(Box::new(|_| {
+        HOOK_HITS.fetch_add(1, std::sync::atomic::Ordering::SeqCst);
+    }));
+}
+
+fn counting_hook_still_installed() -> bool {
+    let before = HOOK_HITS.load(std::sync::atomic::Ordering::SeqCst);
+    let _ = catch_unwind(|| panic!("hook probe"));
+    let ok = HOOK_HITS.load(std::sync::atomic::Ordering::SeqCst) > before;
+    if !ok {
+        install_counting_hook();
+    }
+    ok
 }
 
 fn cmd_gen(args: &[String]) {
@@ -504,7 +528,7 @@ fn cmd_sched(args: &[String]) {
     }
     let input = std::io::BufReader::new(std::fs::File::open(&args[0]).expect("groups file"));
     let mut out = BufWriter::new(std::fs::File::create(&args[1]).expect("trace file"));
-    std::panic::set_hook(Box::new(|_| {}));
+    install_counting_hook();
     for line in input.lines() {
         let line = line.unwrap();
         if line.trim().is_empty() {
@@ -593,6 +617,9 @@ fn cmd_sched(args: &[String]) {
             writeln!(out, "{}", tlc_safe(case_event(&case, &id, &src, if g.schedule.is_empty() { "threads" } else { "sched" }))).unwrap();
             writeln!(out, "{}", tlc_safe(obs_min(&id, &oc))).unwrap();
         }
+        if !counting_hook_still_installed() {
+            writeln!(out, "{}", json!({"ev": "envstate", "id": g.id, "ok": false, "what": "the panic hook of the process was replaced while the calls ran"})).unwrap();
+        }
         if !g.schedule.is_empty() {
             let order = state.0.lock().unwrap().order.clone();
             writeln!(out, "{}", json!({"ev": "sched", "id": g.id, "schedule": g.schedule, "order": order})).unwrap();
@@ -626,6 +653,13 @@ fn main() {
     if args.is_empty() {
         eprintln!("usage: vdriver <gen|concretise> ...");
         std::process::exit(2);
+    }
+    if std::env::var("VERIF_DELETED_CWD").is_ok() {
+        // the process lives in a working directory that no longer exists (a build script whose directory was cleaned under it)
+        let d = std::env::temp_dir().join(format!("vdriver-cwd-{}", std::process::id()));
+        std::fs::create_dir_all(&d).expect("scratch cwd");
+        std::env::set_current_dir(&d).expect("chdir");
+        std::fs::remove_dir(&d).expect("rmdir");
     }
     match args[0].as_str() {
         "gen" => cmd_gen(&args[1..]),
